@@ -35,14 +35,69 @@ bool Filename::exists() const {
   return false;
 }
 
-// One configuration: directory kinds, include form, and the position (in the applicable search list) of the first
-// candidate that exists are concrete; the existence of every other candidate - later in the list or not in the list at
-// all - is symbolic.  (Symbolic bits for the candidates that are consulted make CBMC merge the "found" and "not found"
-// paths at the shared destructor blocks of find_include, after which the lengths of all path strings are symbolic.)
-static void __attribute__((noinline)) run_config(CPPPreprocessor *pp, int kinds, bool angle, int firstpos) {
-  int list[NCAND]; int nlist = 0;
+// the applicable search list in the order the property states: quotes = cwd, includer's directory, every -I/-S directory in
+// command-line order; angle = the -S directories only
+static int __attribute__((noinline)) search_list(int kinds, bool angle, int *list) {
+  int nlist = 0;
   if (!angle) { for (int i = 0; i < NCAND; i++) list[nlist++] = i; }
   else { for (int i = 0; i < NDIRS; i++) if (kinds & (1 << i)) list[nlist++] = 2 + i; }
+  return nlist;
+}
+
+// one lookup against the current fs_exists table; want = the candidate the stated order selects (-1: none).
+// Returns whether every check held (a constant for symbolic execution when the table and the run were concrete).
+static bool __attribute__((noinline)) lookup(CPPPreprocessor *pp, int kinds, bool angle, int want) {
+  fs_unexpected = 0;
+  Filename *fn = new Filename("x.h");
+  CPPFile::Source source = CPPFile::S_none;
+  bool found = pp->find_include(*fn, angle, source);
+
+  bool ok = true;
+  ASSERT(fs_unexpected == 0, "C17 include lookup only probes the candidate locations");
+  if (fs_unexpected != 0) ok = false;
+  ASSERT(found == (want >= 0), "C17 include is found exactly when a candidate in the applicable search list exists");
+  if (found != (want >= 0)) ok = false;
+  if (found && want >= 0) {
+    bool same = fn->_filename.size() == CLEN[want] &&
+                memcmp(fn->_filename.data(), CAND[want], CLEN[want]) == 0;
+    ASSERT(same, "C17 include resolves to the first existing candidate in the stated order");
+    CPPFile::Source ws = want == 0 ? CPPFile::S_local : want == 1 ? CPPFile::S_alternate
+                         : ((kinds & (1 << (want - 2))) ? CPPFile::S_system : CPPFile::S_alternate);
+    ASSERT(source == ws, "C17 include source: local only for the working directory, system for -S, alternate otherwise");
+    ASSERT((source == CPPFile::S_local) == (want == 0), "C17 a file is the user's own only when found in the working directory");
+    if (!same || source != ws) ok = false;
+  }
+  return ok;
+}
+
+// Phase A configuration: the existence of EVERY candidate is concrete (bit i of vec); the lookup runs on constants, so
+// an implementation that consults the candidates in another order (and so merges nothing symbolic) is DECIDED here:
+// the assertion about the resolved path fails with a counterexample instead of the query blowing up.
+static bool __attribute__((noinline)) run_concrete(CPPPreprocessor *pp, int kinds, bool angle, unsigned vec) {
+  int list[NCAND];
+  int nlist = search_list(kinds, angle, list);
+  for (int i = 0; i < NCAND; i++) fs_exists[i] = (vec >> i) & 1;
+  int want = -1;
+  for (int j = nlist - 1; j >= 0; j--) if (fs_exists[list[j]]) want = list[j];
+  return lookup(pp, kinds, angle, want);
+}
+
+// (own function: nested harness loops accumulate their unwind counts)
+static bool __attribute__((noinline)) phase_a(CPPPreprocessor *pp, int kinds, bool angle) {
+  bool ok = true;
+  for (unsigned vec = 0; vec < (1u << NCAND); vec++)
+    if (!run_concrete(pp, kinds, angle, vec)) ok = false;
+  return ok;
+}
+
+// Phase B configuration: directory kinds, include form, and the position (in the applicable search list) of the first
+// candidate that exists are concrete; the existence of every other candidate - later in the list or not in the list at
+// all - is symbolic.  (Symbolic bits for the candidates that are consulted make CBMC merge the "found" and "not found"
+// paths at the shared destructor blocks of find_include, after which the lengths of all path strings are symbolic:
+// 15 GB per query.  That is why phase B only runs after phase A found the order intact.)
+static void __attribute__((noinline)) run_config(CPPPreprocessor *pp, int kinds, bool angle, int firstpos) {
+  int list[NCAND];
+  int nlist = search_list(kinds, angle, list);
   if (firstpos > nlist) return;
   for (int i = 0; i < NCAND; i++) {
     int pos = -1;
@@ -54,24 +109,9 @@ static void __attribute__((noinline)) run_config(CPPPreprocessor *pp, int kinds,
 #ifdef CWD_EXISTS
   fs_exists[0] = true;
 #endif
-  fs_unexpected = 0;
-  Filename *fn = new Filename("x.h");
-  CPPFile::Source source = CPPFile::S_none;
-  bool found = pp->find_include(*fn, angle, source);
-
   // reference: the order the property states
   int want = firstpos < nlist ? list[firstpos] : -1;
-  ASSERT(fs_unexpected == 0, "C17 include lookup only probes the candidate locations");
-  ASSERT(found == (want >= 0), "C17 include is found exactly when a candidate in the applicable search list exists");
-  if (found && want >= 0) {
-    bool same = fn->_filename.size() == CLEN[want] &&
-                memcmp(fn->_filename.data(), CAND[want], CLEN[want]) == 0;
-    ASSERT(same, "C17 include resolves to the first existing candidate in the stated order");
-    CPPFile::Source ws = want == 0 ? CPPFile::S_local : want == 1 ? CPPFile::S_alternate
-                         : ((kinds & (1 << (want - 2))) ? CPPFile::S_system : CPPFile::S_alternate);
-    ASSERT(source == ws, "C17 include source: local only for the working directory, system for -S, alternate otherwise");
-    ASSERT((source == CPPFile::S_local) == (want == 0), "C17 a file is the user's own only when found in the working directory");
-  }
+  lookup(pp, kinds, angle, want);
 }
 
 extern "C" void harness_c17_find_include() {
@@ -95,13 +135,21 @@ extern "C" void harness_c17_find_include() {
   in->_file = CPPFile(Filename("inc/f.h"), Filename("inc/f.h"), CPPFile::S_alternate);
   pp->_infile = in;
 
-#ifdef CWD_EXISTS
-  // the file exists in the working directory: only the angle-bracket form is meaningful here (quotes find it there)
-  for (int angle = 1; angle < 2; angle++)
-#else
+  // Phase A: both include forms x every one of the 2^NCAND existence tables, all concrete
+  bool ok = true;
   for (int angle = 0; angle < 2; angle++)
+    if (!phase_a(pp, kinds, angle != 0)) ok = false;
+
+  // Phase B: symbolic existence of every candidate the stated order does not consult
+  if (ok) {
+#ifdef CWD_EXISTS
+    // the file exists in the working directory: only the angle-bracket form is meaningful here (quotes find it there)
+    for (int angle = 1; angle < 2; angle++)
+#else
+    for (int angle = 0; angle < 2; angle++)
 #endif
-    for (int firstpos = 0; firstpos <= NCAND; firstpos++)
-      run_config(pp, kinds, angle != 0, firstpos);
+      for (int firstpos = 0; firstpos <= NCAND; firstpos++)
+        run_config(pp, kinds, angle != 0, firstpos);
+  }
   WITNESS();
 }
